@@ -6,6 +6,7 @@ mod brokerdrv;
 mod resprig;
 mod routerig;
 mod cluster;
+mod metarig;
 mod compressrig;
 mod sched;
 mod simnet;
@@ -191,6 +192,20 @@ fn cmd_compress_cases(m: &HashMap<String, String>) -> i32 {
     0
 }
 
+fn cmd_meta_cases(m: &HashMap<String, String>) -> i32 {
+    let out = m.get("out").expect("--out");
+    let f = std::fs::File::create(out).expect("create");
+    let mut w = BufWriter::new(f);
+    if m.contains_key("concurrent") {
+        metarig::run_concurrent(&mut w, geti(m, "seed", 1u64), geti(m, "count", 50usize));
+    } else {
+        let rt = paused_rt();
+        rt.block_on(metarig::run_sequential(&mut w, geti(m, "seed", 1u64), geti(m, "count", 50usize), geti(m, "len", 8usize)));
+    }
+    w.flush().ok();
+    0
+}
+
 fn main() {
     let args: Vec<String> = std::env::args().collect();
     if args.len() < 2 {
@@ -211,6 +226,7 @@ fn main() {
         "slot-cases" => cmd_slot_cases(&m),
         "wire-cases" => cmd_wire_cases(&m),
         "compress-cases" => cmd_compress_cases(&m),
+        "meta-cases" => cmd_meta_cases(&m),
         other => {
             eprintln!("unknown subcommand {}", other);
             2
